@@ -4,6 +4,27 @@ as catching it (restricted to the engines the touched files concern), undoes it,
 still detected. Usage: bin/seeded_regression.py [id ...]"""
 import os, sys, json, subprocess, re, glob
 ROOT = os.path.dirname(os.path.dirname(os.path.abspath(__file__)))
+SCRATCH = '--scratch' in sys.argv
+if SCRATCH:
+    sys.argv.remove('--scratch')
+    # re-execute from scratch copies of /verif and /repo (removed at the end)
+    import shutil, tempfile
+    base = tempfile.mkdtemp(prefix='regr_', dir='/tmp')
+    sv, sr = os.path.join(base, 'verif'), os.path.join(base, 'repo')
+    subprocess.run(['git', '-C', '/repo', 'worktree', 'add', '-q', '--detach', sr, 'HEAD'], check=True)
+    subprocess.run(['rsync', '-a', '--exclude', 'build/target', '--exclude', 'build/pytarget', '--exclude', 'build/work', '--exclude', 'build/results',
+                    '--exclude', '.git', ROOT + '/', sv + '/'], check=True)
+    ct = os.path.join(sv, 'harness', 'Cargo.toml')
+    open(ct, 'w').write(open(ct).read().replace('/repo/oxmpl', sr + '/oxmpl'))
+    try:
+        rc = subprocess.run([sys.executable, os.path.join(sv, 'bin', 'seeded_regression.py')] + sys.argv[1:],
+                            env={**os.environ, 'VERIF_REPO': sr}).returncode
+        shutil.copy(os.path.join(sv, 'build', 'seeded_regression.json'), os.path.join(ROOT, 'build', 'seeded_regression.json'))
+    finally:
+        subprocess.run(['git', '-C', '/repo', 'worktree', 'remove', '--force', sr])
+        shutil.rmtree(base, ignore_errors=True)
+    sys.exit(rc)
+REPO = os.environ.get('VERIF_REPO', '/repo')
 ids = sys.argv[1:] or sorted(x for x in os.listdir(os.path.join(ROOT, 'seeded')) if os.path.isdir(os.path.join(ROOT, 'seeded', x)))
 def engines_for(patch):
     t = open(patch).read()
@@ -20,9 +41,9 @@ for i in ids:
     d = os.path.join(ROOT, 'seeded', i)
     meta = json.load(open(os.path.join(d, 'meta.json')))
     patch = os.path.join(d, 'patch.diff')
-    if subprocess.run(['git', '-C', '/repo', 'apply', '--check', patch]).returncode != 0:
+    if subprocess.run(['git', '-C', REPO, 'apply', '--check', patch]).returncode != 0:
         out[i] = 'patch no longer applies'; print(i, out[i], flush=True); continue
-    subprocess.run(['git', '-C', '/repo', 'apply', patch], check=True)
+    subprocess.run(['git', '-C', REPO, 'apply', patch], check=True)
     try:
         res = []
         for cmd in meta['ran']:
@@ -33,7 +54,7 @@ for i in ids:
             res.append((m.group(1), p.returncode, labs[:4]))
         out[i] = res
     finally:
-        subprocess.run(['git', '-C', '/repo', 'checkout', '--', '.'], check=True)
+        subprocess.run(['git', '-C', REPO, 'checkout', '--', '.'], check=True)
     det = any(r[1] == 1 for r in res)
     print(i, 'DETECTED' if det else 'MISSED', res, flush=True)
 json.dump(out, open(os.path.join(ROOT, 'build', 'seeded_regression.json'), 'w'), indent=1)
